@@ -183,6 +183,10 @@ func init() {
 			"(try (+ 1 (do (t! 1) (rawpan!))) (catch e (list :caught e)))",
 			"(do (def gp (fn [] (list 2 (rawpan!)))) (try (list 1 (gp)) (catch e (str e))))",
 			"(do (def gp (fn [] (t! :gp) (rawpan!))) (try (do (t! 0) (gp) (t! 9)) (catch z (t! :c) 5) (finally (t! :fin))))",
+			// an expansion that is only asked for (the macroexpand form returns it as data, nothing evaluates it)
+			"(do (defmacro m1 (fn [s] (list (quote t!) s))) (let [x 5] (macroexpand (m1 x)) (t! 6)))",
+			"(do (defmacro m1 (fn [s] (list (quote t!) s))) (def x 5) (list (macroexpand (m1 x)) (let [x 7] (t! 8)) (m1 x)))",
+			"(do (defmacro m2 (fn [s] (list (quote do) (list (quote t!) s)))) (let [y 1] (list (macroexpand (m2 y)) (t! 2) (m2 y))))",
 		}
 		srcs = append(srcs, src{"fixed", func() int64 { return int64(len(fixedProgs)) }, func(i int64) V { return model.FromImpl(lx.MustRead(fixedProgs[i])) }})
 		srcs = append(srcs, src{"loop", func() int64 { return int64(len(loopProgs)) }, func(i int64) V { return model.FromImpl(lx.MustRead(loopProgs[i])) }})
@@ -197,7 +201,7 @@ func init() {
 		}
 		fam := &vf.Family{
 			Name:   "programs-x-scripts",
-			Bounds: "programs: all core-form programs (C01 grammar + (t! x), (t! y)) of weight <=4, all try nests (C03 grammar) of weight <=3/<=4, all template macros (C12 code grammar, weight <=3) x operand tuples of length 1-2, 10 fixed programs (handlers ending in a call or let that rebinds what finally reads; bare panicking Go functions), and 3 tail-recursive loops of 3000-4000 iterations (under the four one-command scripts); each run under every stepper command script of length 1..3 (quick, 84) / 1..4 (thorough, 340) over {noop, next, in, out}, applied cyclically",
+			Bounds: "programs: all core-form programs (C01 grammar + (t! x), (t! y)) of weight <=4, all try nests (C03 grammar) of weight <=3/<=4, all template macros (C12 code grammar, weight <=3) x operand tuples of length 1-2, 13 fixed programs (handlers ending in a call or let that rebinds what finally reads; bare panicking Go functions; expansions asked for with macroexpand and not evaluated), and 3 tail-recursive loops of 3000-4000 iterations (under the four one-command scripts); each run under every stepper command script of length 1..3 (quick, 84) / 1..4 (thorough, 340) over {noop, next, in, out}, applied cyclically",
 			Setup:  setup,
 			N: func(t string) int64 {
 				tier = t
